@@ -9,17 +9,18 @@ import (
 	"io/fs"
 	"os"
 	"path/filepath"
+	"reflect"
 	"regexp"
 	"sort"
 	"strings"
 	"sync"
 	"unicode/utf8"
+	"unsafe"
 
 	"github.com/bufbuild/protocompile/experimental/ast"
 	"github.com/bufbuild/protocompile/experimental/parser"
 	"github.com/bufbuild/protocompile/experimental/report"
 	"github.com/bufbuild/protocompile/experimental/source"
-	compilerpb "github.com/bufbuild/protocompile/internal/gen/buf/compiler/v1alpha1"
 	"github.com/bufbuild/protocompile/internal/verifmon/vlib"
 )
 
@@ -140,19 +141,9 @@ func corpus() ([]namedSource, error) {
 // parse wrapper
 
 type snippetInfo struct {
-	Path       string
-	Text       string
-	Start, End uint32
-	Primary    bool
-	Edits      [][2]uint32
-}
-
-type diagInfo struct {
-	Level    report.Level
-	Message  string
-	Tag      string
-	InFile   string
-	Snippets []snippetInfo
+	Span    source.Span
+	Primary bool
+	Edits   []report.Edit
 }
 
 type parseOutcome struct {
@@ -160,7 +151,6 @@ type parseOutcome struct {
 	Src    *source.File
 	OK     bool
 	Report *report.Report
-	Diags  []diagInfo
 	Panic  any
 	Stack  string
 	// counts per level
@@ -194,38 +184,40 @@ func parseText(path, text string) *parseOutcome {
 	return o
 }
 
-// diagnostics materialises every snippet of every diagnostic. Snippets other
-// than the primary one are only reachable through the report's serialised
-// form, so this goes through Report.ToProto (a pure read).
-func (o *parseOutcome) diagnostics() (ds []diagInfo, pv any, stack string) {
-	if o.Diags != nil || len(o.Report.Diagnostics) == 0 {
-		return o.Diags, nil, ""
+// snippetsOf reads every snippet (not only the primary one) of a diagnostic.
+// The public API exposes only Primary(), and Report.ToProto does not carry the
+// file's text, so the unexported field `snippets` is read by reflection (a
+// pure read). An error means the field layout changed: the caller must treat
+// that as inconclusive, never as a pass.
+func snippetsOf(d *report.Diagnostic) (out []snippetInfo, err error) {
+	defer func() {
+		if p := recover(); p != nil {
+			err = fmt.Errorf("reflection over report.Diagnostic failed: %v", p)
+		}
+	}()
+	v := reflect.ValueOf(d).Elem()
+	f := v.FieldByName("snippets")
+	if !f.IsValid() || f.Kind() != reflect.Slice {
+		return nil, fmt.Errorf("report.Diagnostic has no slice field `snippets`")
 	}
-	pv, stack = vlib.Try(func() {
-		pb, _ := o.Report.ToProto().(*compilerpb.Report)
-		if pb == nil {
-			return
+	f = reflect.NewAt(f.Type(), unsafe.Pointer(f.UnsafeAddr())).Elem()
+	for i := 0; i < f.Len(); i++ {
+		e := f.Index(i)
+		var si snippetInfo
+		sp := e.FieldByName("Span")
+		if !sp.IsValid() {
+			return nil, fmt.Errorf("snippet has no field Span")
 		}
-		for _, d := range pb.Diagnostics {
-			di := diagInfo{Level: report.Level(d.Level), Message: d.Message, Tag: d.Tag, InFile: d.InFile}
-			for _, a := range d.Annotations {
-				si := snippetInfo{Start: a.Start, End: a.End, Primary: a.Primary}
-				if int(a.File) < len(pb.Files) {
-					si.Path = pb.Files[a.File].Path
-					si.Text = string(pb.Files[a.File].Text)
-				} else {
-					si.Path = "\x00missing-file-index"
-				}
-				for _, e := range a.Edits {
-					si.Edits = append(si.Edits, [2]uint32{e.Start, e.End})
-				}
-				di.Snippets = append(di.Snippets, si)
-			}
-			ds = append(ds, di)
+		si.Span = reflect.NewAt(sp.Type(), unsafe.Pointer(sp.UnsafeAddr())).Elem().Interface().(source.Span)
+		if p := e.FieldByName("primary"); p.IsValid() {
+			si.Primary = p.Bool()
 		}
-	})
-	o.Diags = ds
-	return ds, pv, stack
+		if ed := e.FieldByName("edits"); ed.IsValid() {
+			si.Edits, _ = reflect.NewAt(ed.Type(), unsafe.Pointer(ed.UnsafeAddr())).Elem().Interface().([]report.Edit)
+		}
+		out = append(out, si)
+	}
+	return out, nil
 }
 
 // normMsg turns a diagnostic message into a class: quoted fragments, numbers
